@@ -121,3 +121,148 @@ Proof.
   destruct (nth_error (pcs c) i) as [[| |r']|] eqn:Ep; try discriminate. inversion Hr; subst r'.
   split; intros Ho; specialize (Ha i _ r Ho Ep); simpl in Ha; intros; eapply Ha; eauto.
 Qed.
+
+(* ------------------------------------------------------------------ progress: nobody waits forever *)
+
+Lemma phi_set_nth scan : forall l i p q,
+  nth_error l i = Some p ->
+  (fold_right (fun p a => cost scan p + a) 0 (set_nth i q l) + cost scan p =
+   fold_right (fun p a => cost scan p + a) 0 l + cost scan q)%nat.
+Proof.
+  induction l as [|y r IH]; intros [|i] p q H; simpl in *; try discriminate.
+  - inversion H; subst. lia.
+  - specialize (IH i p q H). lia.
+Qed.
+
+(* whoever holds a store's mutex is a thread of that store that is in its critical section *)
+Definition lock_ok (ops : list op) (c : cst) : Prop :=
+  forall w h, lock_of w c = Some h ->
+    exists o n, nth_error ops h = Some o /\ on_pp o = w /\ nth_error (pcs c) h = Some (PHolding n).
+
+Lemma length_set_nth {A} (l : list A) : forall i x, length (set_nth i x l) = length l.
+Proof. induction l as [|y r IH]; intros [|i] x; simpl; auto. Qed.
+
+Lemma tstep_shape ops scan c i :
+  lock_ok ops c ->
+  lock_ok ops (tstep ops scan c i) /\ length (pcs (tstep ops scan c i)) = length (pcs c) /\
+  (phi scan (tstep ops scan c i) <= phi scan c)%nat.
+Proof.
+  intros Hl. unfold tstep.
+  destruct (nth_error ops i) as [o|] eqn:Eo; [|auto].
+  destruct (nth_error (pcs c) i) as [[|[|n]|r0]|] eqn:Ep; auto.
+  - (* PStart *)
+    destruct (lock_of (on_pp o) c) eqn:El; [auto|].
+    split; [|split].
+    + intros w h Hw. destruct (Bool.eqb w (on_pp o)) eqn:Ew.
+      * apply eqb_prop in Ew. subst w.
+        assert (h = i) by (destruct (on_pp o); simpl in Hw; congruence). subst h.
+        eexists o, _. split; [exact Eo|]. split; [reflexivity|].
+        simpl. rewrite nth_set_nth, Nat.eqb_refl, Ep. reflexivity.
+      * assert (Hw' : lock_of w c = Some h).
+        { destruct w, (on_pp o); simpl in *; try discriminate; exact Hw. }
+        destruct (Hl w h Hw') as (o' & n & A & B & C). exists o', n. split; [exact A|]. split; [exact B|].
+        simpl. rewrite nth_set_nth. destruct (Nat.eqb i h) eqn:E; [|destruct (on_pp o); exact C].
+        apply Nat.eqb_eq in E. subst h. rewrite Ep in C. discriminate.
+    + simpl. apply length_set_nth.
+    + unfold phi.
+      remember (match store_of (on_pp o) (cdc c) with Some _ => 0%nat | None => scan end) as k eqn:Ek.
+      assert (Hk : (k <= scan)%nat) by (subst k; destruct (store_of (on_pp o) (cdc c)); lia).
+      pose proof (phi_set_nth scan (pcs c) i PStart (PHolding k) Ep) as H.
+      simpl in *. lia.
+  - (* PHolding 0: finish *)
+    destruct (step (cdc c) o) as [d' r] eqn:Es.
+    split; [|split].
+    + intros w h Hw. destruct (Bool.eqb w (on_pp o)) eqn:Ew.
+      * apply eqb_prop in Ew. subst w. destruct (on_pp o); simpl in Hw; discriminate.
+      * assert (Hw' : lock_of w c = Some h).
+        { destruct w, (on_pp o); simpl in *; try discriminate; exact Hw. }
+        destruct (Hl w h Hw') as (o' & n & A & B & C). exists o', n. split; [exact A|]. split; [exact B|].
+        assert (Hne : Nat.eqb i h = false).
+        { destruct (Nat.eqb i h) eqn:E; [|reflexivity]. apply Nat.eqb_eq in E. subst h.
+          rewrite Eo in A. inversion A; subst o'. rewrite B in Ew. rewrite eqb_reflx in Ew. discriminate. }
+        destruct (on_pp o); simpl; rewrite nth_set_nth, Hne; exact C.
+    + destruct (on_pp o); simpl; apply length_set_nth.
+    + unfold phi. pose proof (phi_set_nth scan (pcs c) i (PHolding 0) (PDone r) Ep) as H. simpl in H.
+      destruct (on_pp o); simpl; lia.
+  - (* PHolding (S n) *)
+    split; [|split].
+    + intros w h Hw. simpl in Hw.
+      assert (Hw' : lock_of w c = Some h) by (destruct w; exact Hw).
+      destruct (Hl w h Hw') as (o' & m & A & B & C).
+      simpl. destruct (Nat.eqb i h) eqn:E.
+      * apply Nat.eqb_eq in E. subst h. exists o', n. split; [exact A|]. split; [exact B|].
+        rewrite nth_set_nth, Nat.eqb_refl, Ep. reflexivity.
+      * exists o', m. split; [exact A|]. split; [exact B|]. rewrite nth_set_nth, E. exact C.
+    + simpl. apply length_set_nth.
+    + unfold phi. simpl. pose proof (phi_set_nth scan (pcs c) i (PHolding (S n)) (PHolding n) Ep) as H.
+      simpl in H. lia.
+Qed.
+
+(* in a well-formed state that is not finished some thread can take a step, and that step pays off *)
+Lemma tstep_progress ops scan c :
+  lock_ok ops c -> length (pcs c) = length ops -> all_done c = false ->
+  exists i, (i < length ops)%nat /\ (phi scan (tstep ops scan c i) < phi scan c)%nat.
+Proof.
+  intros Hl Hlen Hnd.
+  (* a holder, if there is one, can move; otherwise every lock is free and any waiting thread can *)
+  assert (Hex : exists i p, nth_error (pcs c) i = Some p /\ is_done p = false).
+  { unfold all_done in Hnd. clear -Hnd. induction (pcs c) as [|p r IH]; simpl in Hnd; [discriminate|].
+    destruct (is_done p) eqn:E.
+    - destruct (IH Hnd) as (i & q & A & B). exists (S i), q. auto.
+    - exists 0%nat, p. auto. }
+  destruct Hex as (j & p & Hj & Hp).
+  assert (Hjlt : (j < length ops)%nat) by (rewrite <- Hlen; apply nth_error_Some; congruence).
+  destruct (nth_error ops j) as [oj|] eqn:Eoj; [|apply nth_error_None in Eoj; lia].
+  assert (Hmove : forall i o n, nth_error ops i = Some o -> nth_error (pcs c) i = Some (PHolding n) ->
+                                (phi scan (tstep ops scan c i) < phi scan c)%nat).
+  { intros i o n Ho Hi. unfold tstep. rewrite Ho, Hi. destruct n as [|n].
+    - destruct (step (cdc c) o) as [d' r]. unfold phi.
+      pose proof (phi_set_nth scan (pcs c) i (PHolding 0) (PDone r) Hi) as H. simpl in H.
+      destruct (on_pp o); simpl; lia.
+    - unfold phi. simpl. pose proof (phi_set_nth scan (pcs c) i (PHolding (S n)) (PHolding n) Hi) as H.
+      simpl in H. lia. }
+  destruct p as [|n|r]; [|exists j; split; [exact Hjlt | eapply Hmove; eauto]|discriminate].
+  destruct (lock_of (on_pp oj) c) as [h|] eqn:El.
+  - destruct (Hl _ _ El) as (o' & n & A & B & C).
+    exists h. split; [apply nth_error_Some; congruence | eapply Hmove; eauto].
+  - exists j. split; [exact Hjlt|]. unfold tstep. rewrite Eoj, Hj, El. unfold phi.
+    remember (match store_of (on_pp oj) (cdc c) with Some _ => 0%nat | None => scan end) as k eqn:Ek.
+    assert (Hk : (k <= scan)%nat) by (subst k; destruct (store_of (on_pp oj) (cdc c)); lia).
+    pose proof (phi_set_nth scan (pcs c) j PStart (PHolding k) Hj) as H.
+    simpl in *. lia.
+Qed.
+
+Lemma crun_shape ops scan sched : forall c,
+  lock_ok ops c ->
+  lock_ok ops (crun ops scan c sched) /\ length (pcs (crun ops scan c sched)) = length (pcs c) /\
+  (phi scan (crun ops scan c sched) <= phi scan c)%nat.
+Proof.
+  induction sched as [|i r IH]; intros c Hl; simpl; [auto|].
+  destruct (tstep_shape ops scan c i Hl) as (A & B & C).
+  destruct (IH _ A) as (A' & B' & C'). split; [exact A'|]. split; lia.
+Qed.
+
+Lemma phi_start scan d n : phi scan (cstart d n) = (n * (scan + 2))%nat.
+Proof. unfold phi. simpl. induction n as [|n IH]; simpl; [reflexivity|]. rewrite IH. lia. Qed.
+
+(* For ALL configurations (scan length, LOG LEVEL), numbers of threads and schedules, in every reachable
+   state: the work left is bounded by threads * (scan + 2) and no tick increases it, and unless every
+   lookup has returned SOME thread can take a step that decreases it — no deadlock, in particular no
+   thread ever waits for a mutex it holds itself; under any fair schedule every lookup returns after at
+   most threads * (scan + 2) effective ticks. *)
+Theorem lookups_never_deadlock : forall cfg d ops sched,
+  let c := crun_cfg cfg ops (cstart d (length ops)) sched in
+  (phi (cc_scan cfg) c <= length ops * (cc_scan cfg + 2))%nat /\
+  (forall i, phi (cc_scan cfg) (tstep ops (cc_scan cfg) c i) <= phi (cc_scan cfg) c)%nat /\
+  (all_done c = true \/
+   exists i, (i < length ops)%nat /\ (phi (cc_scan cfg) (tstep ops (cc_scan cfg) c i) < phi (cc_scan cfg) c)%nat).
+Proof.
+  intros cfg d ops sched c. unfold crun_cfg in c.
+  assert (H0 : lock_ok ops (cstart d (length ops))) by (intros w h Hw; destruct w; discriminate).
+  destruct (crun_shape ops (cc_scan cfg) sched _ H0) as (A & B & C). fold c in A, B, C.
+  rewrite phi_start in C. simpl in B. rewrite repeat_length in B.
+  split; [exact C|]. split.
+  - intros i. apply (tstep_shape ops (cc_scan cfg) c i A).
+  - destruct (all_done c) eqn:E; [left; reflexivity|right].
+    apply tstep_progress; assumption.
+Qed.
